@@ -148,10 +148,33 @@ Proof. exact same_ground_tile_same_internal_l. Qed.
 
 (* WMS-C: a GetMap with tiled=true is either refused / blank or answered with a stored tile every edge of which
    lies within 1/10 pixel of the requested rectangle (so never with a neighbouring tile); the size is the tile size.
-   wmsc_partial: that the rectangles derived from the advertised TileSet are *served* (not refused) when the
-   hypotheses of tms_address_exact hold is validated by the correspondence only (needs closest_level). *)
+   (The positive direction is wmsc_advertised_served below.) *)
 Theorem wmsc_exact_or_refused :
   forall g b sx sy c,
     wmsc_get_map g b sx sy = WLoaded c ->
     sx = tw g /\ sy = th g /\ bbox_equals_tenth b (tile_bbox_c g c) sx sy = true.
 Proof. exact wmsc_exact_or_refused_l. Qed.
+
+(* WMS-C: requesting exactly the rectangle of a stored tile (tile size of the grid, lattice of at least 10 quanta
+   per pixel so that the 1/10 pixel inset is not zero) returns that tile: level choice (closest_level with the
+   stretch factor), shrink limit, the inset block and the alignment guard all let it through. *)
+Theorem wmsc_stored_tile_served :
+  forall g x y l,
+    wf g -> decreasing_res g -> 0 < sf_d g <= sf_n g -> 0 < shr_d g <= shr_n g ->
+    limit_tile g x y l = Some (x, y, l) -> 10 <= res_at g l ->
+    wmsc_get_map g (tile_bbox g x y l) (tw g) (th g) = WLoaded (x, y, l).
+Proof. exact wmsc_tile_rect_served. Qed.
+
+(* WMS-C: the rectangle a client derives from the advertised TileSet (lower-left corner of the BoundingBox,
+   resolution of level l, tile size) for tile (i, j) is served with the tile TMS serves for (i, j) - under the
+   hypotheses of tms_address_exact; without them such rectangles are refused (finding F8, WMS-C face:
+   ex_wmsc_advertised in TileSvc_proofs.v). *)
+Theorem wmsc_advertised_served :
+  forall s i j l,
+    wf (sg s) -> decreasing_res (sg s) -> 0 < sf_d (sg s) <= sf_n (sg s) -> 0 < shr_d (sg s) <= shr_n (sg s) ->
+    s_extent s = grid_bbox (sg s) ->
+    (ul (sg s) = false \/ misalign (sg s) l = 0) ->
+    limit_tile (sg s) i j l = Some (i, j, l) -> 10 <= res_at (sg s) l ->
+    wmsc_get_map (sg s) (wmsc_client_rect s (res_at (sg s) l) i j) (tw (sg s)) (th (sg s)) =
+    WLoaded (flip_for (sg s) OSW (i, j, l)).
+Proof. exact wmsc_advertised_served_l. Qed.
